@@ -74,6 +74,36 @@ def simulate_scripts(kinds, num, depth, sseed):
     return scripts, r
 
 
+def abandoned():
+    """Abandoned requests: the caller gives up (deadline) before the acknowledgement; late acknowledgements for the
+    abandoned identifiers must neither complete nor disturb requests issued afterwards."""
+    out = []
+    i = 0
+    for kind in KINDS:
+        for na, nf in ((4, 3), (12, 8)):
+            for order in (0, 1):
+                calls = [{"kind": kind, "n": 1, "abandonMs": 15} for _ in range(na)]
+                calls2 = [{"kind": kind, "n": 1} for _ in range(nf)]
+                late = [{"c": c + 1, "k": FIRST[kind]} for c in range(na)]
+                sc0 = {"id": "a%d" % i, "calls": calls, "script": [], "calls2": calls2, "script2": late}
+                if order:
+                    # acknowledge the last fresh request properly at the very end
+                    sc0["script2"] = late + [{"c": na + nf, "k": FIRST[kind]}] + ([{"c": na + nf, "k": "PUBCOMP"}] if kind == "pub2" else [])
+                out.append(sc0)
+                i += 1
+    # requests being abandoned WHILE acknowledgements of the same kind are dispatched for others
+    for kind in KINDS:
+        calls = [{"kind": kind, "n": 1, "abandonMs": 2 + (c % 4)} for c in range(10)] + [{"kind": kind, "n": 1} for _ in range(6)]
+        script = []
+        for c in range(10, 16):
+            script.append({"c": c + 1, "k": FIRST[kind]})
+            if kind == "pub2":
+                script.append({"c": c + 1, "k": "PUBCOMP"})
+        out.append({"id": "a%d" % i, "calls": calls, "script": script})
+        i += 1
+    return out
+
+
 def bursts(tier, rng):
     """The acknowledgements of concurrent requests arrive back to back (no caller runs in between); each
     Subscribe must still get the codes of its own SUBACK (different vectors / different counts per caller)."""
@@ -129,20 +159,13 @@ def scenarios(tier, rng):
             calls = [{"kind": k, "n": 2 if k in ("sub", "unsub") else 1} for k in kinds]
             out.append({"id": "d%d" % i, "calls": calls, "script": sc})
             i += 1
-    # abandoned requests: the caller gives up (deadline) before the acknowledgement; late acknowledgements for the
-    # abandoned identifiers must neither complete nor disturb requests issued afterwards
-    for kind in KINDS:
-        for na, nf in ((4, 3), (12, 8)):
-            for order in (0, 1):
-                calls = [{"kind": kind, "n": 1, "abandonMs": 15} for _ in range(na)]
-                calls2 = [{"kind": kind, "n": 1} for _ in range(nf)]
-                late = [{"c": c + 1, "k": FIRST[kind]} for c in range(na)]
-                sc0 = {"id": "a%d" % i, "calls": calls, "script": [], "calls2": calls2, "script2": late}
-                if order:
-                    # acknowledge the last fresh request properly at the very end
-                    sc0["script2"] = late + [{"c": na + nf, "k": FIRST[kind]}] + ([{"c": na + nf, "k": "PUBCOMP"}] if kind == "pub2" else [])
-                out.append(sc0)
-                i += 1
+    for a in abandoned():
+        out.append(a)
+        i += 1
+    # a very prompt broker: the acknowledgement has been read and dispatched before Transport.Write returns to the caller
+    for kinds in [list(c) for n in (1, 2, 3) for c in itertools.product(KINDS, repeat=n)]:
+        out.append({"id": "q%d" % i, "calls": [{"kind": k, "n": 1 + j % 2} for j, k in enumerate(kinds)], "script": [], "prompt": True})
+        i += 1
     for b in bursts(tier, rng):
         out.append(b)
         i += 1
